@@ -846,6 +846,12 @@ static ares_bool_t ares_buf_split_isduplicate(ares_array_t        *arr,
       continue;
     }
 
+    /* Two zero-length values are duplicates, and a zero-length buffer has no
+     * data pointer that could be passed to the comparison functions */
+    if (len == 0) {
+      return ARES_TRUE;
+    }
+
     if (flags & ARES_BUF_SPLIT_CASE_INSENSITIVE) {
       if (ares_memeq_ci(ptr, val, len)) {
         return ARES_TRUE;
